@@ -141,7 +141,7 @@ class _Decoder:
         if not isinstance(self.cls, ClassV):
             raise AnalysisError("anchor vanished: class _ChunkedTransferDecoder")
 
-    def drive(self, pieces, then_no_more=True, attrs=None):
+    def drive(self, pieces, then_no_more=True, attrs=None, after_reject=()):
         """Deliver the pieces; returns dict(data=[...], finish=[...], exc=name|None, at=index, states=[snapshots at callbacks],
         nomore=name|None|'-', final=attrs)."""
         res = {}
@@ -158,6 +158,17 @@ class _Decoder:
                 except PyRaise as e:
                     r["exc"], r["at"] = exc_name(e.exc), i
                     break
+            r["later"] = []
+            if r["exc"] is not None and after_reject:
+                n0 = len([e for e in m.events if e.kind == "call" and e.name in ("dataCallback", "finishCallback")])
+                for piece in after_reject:          # the peer keeps sending after the rejection
+                    try:
+                        m.call(m.get_attr(d, "dataReceived"), [piece])
+                        r["later"].append(None)
+                    except PyRaise as e:
+                        r["later"].append(exc_name(e.exc))
+                r["late_calls"] = len([e for e in m.events if e.kind == "call" and e.name in ("dataCallback", "finishCallback")]) - n0
+                r["late_state"] = d.attrs.get("state")
             if then_no_more and r["exc"] is None:
                 try:
                     m.call(m.get_attr(d, "noMoreData"), [])
@@ -270,7 +281,8 @@ def _rejects(ctx, D, limit, maxtrailer):
     fam["reject/chunk-not-followed-by-crlf"] = [b"5\r\nhelloXX0\r\n\r\n", b"5\r\nhello\rX", b"5\r\nhello\n\r", b"5\r\nhello\n\n0\r\n\r\n", b"5\r\nhello0\r\n\r\n",
                                                  b"5\r\nhello\r\r\n", b"1\r\na\r\n1\r\nbb\r\n0\r\n\r\n"]
     fam["size-line/limit"] = [b"1" * L + b"\r\nX", b"1;" + b"e" * (L + 5) + b"\r\nX", b"1" * (L + 1), b"\x80" * (L + 1), b"1" * (L - 2) + b"\xff1\r\nX"]
-    fam["trailer/limit"] = [b"0\r\n" + b"a" * (maxtrailer + 10), b"0\r\n" + b"a" * (maxtrailer + 10) + b"\r\n\r\n",
+    nlines = maxtrailer // 1007 + 1
+    fam["trailer/limit"] = [b"0\r\n" + (b"X-T: " + b"v" * 1000 + b"\r\n") * nlines,b"0\r\n" + b"a" * (maxtrailer + 10), b"0\r\n" + b"a" * (maxtrailer + 10) + b"\r\n\r\n",
                             b"0\r\n" + (b"X: " + b"v" * 1000 + b"\r\n") * (maxtrailer // 1000 + 2) + b"\r\n"]
     for rule, streams in fam.items():
         for stream in streams:
@@ -286,6 +298,29 @@ def _rejects(ctx, D, limit, maxtrailer):
             ctx.check(bad is None, rule, f"{q} | stream {_fmt(stream)}",
                       (f"malformed stream {_fmt(stream)} delivered {bad[0]}: exception {bad[1]['exc']}, dataCallback {bad[1]['data']!r}, finishCallback {bad[1]['finish']!r}; "
                        "it must be rejected with _MalformedChunkedDataError (the only exception HTTPChannel converts to a 400) and never complete") if bad else "")
+    # a rejection is absorbing: whatever is delivered afterwards (the peer / a TLS transport keeps sending after the 400) is rejected again and
+    # never reaches the callbacks - otherwise the rejected request is completed by a later terminator and handed to the application
+    tails = [b"\r\n", b"0\r\n\r\n", b"1\r\na\r\n0\r\n\r\n", b"\r\n0\r\n\r\n"]
+    for rule, streams in fam.items():
+        bad = None
+        for stream in streams:
+            if len(stream) > 5000 and rule != "trailer/limit":
+                continue
+            for tail in ([tails[0], tails[1]], [tails[1]], [tails[2]], [tails[3]], [b"\r", b"\n", b"0\r\n\r\n"]):
+                r = D.drive([stream], then_no_more=False, after_reject=tail)
+                if r["exc"] != BAD:
+                    continue          # reported by the rejection rule itself
+                if r.get("late_calls") or r.get("late_state") == "FINISHED" or any(x != BAD for x in r["later"]):
+                    bad = (stream, tail, r)
+                    break
+            if bad:
+                break
+        label = "trailer size limit" if rule == "trailer/limit" else rule.split("/")[1]
+        ctx.check(bad is None, "absorbing/rejected-stays-rejected", f"{q} | after a rejection for {label}",
+                  (f"stream {_fmt(bad[0])} is rejected, but the deliveries {bad[1]!r} that follow give {bad[2]['later']!r} with {bad[2].get('late_calls')} callback(s) and final state "
+                   f"{bad[2].get('late_state')!r}: the decoder consumed the offending input before rejecting it, so a later terminator completes the rejected body (the request is handed "
+                   "to the application after its 400)") if bad else "",
+                  detail="every later delivery raises _MalformedChunkedDataError again, no callback, never FINISHED")
     # accepted at the limits, and waiting (not rejecting) while a line may still become valid
     ok_streams = [("size-line/limit", b"0" * (L - 2) + b"1\r\nX\r\n0\r\n\r\n", b"X"), ("size-line/limit", b"1;" + b"e" * (L - 3) + b"\r\nX\r\n0\r\n\r\n", b"X"),
                   ("trailer/limit", b"0\r\n" + (b"X: " + b"v" * 1000 + b"\r\n") * (maxtrailer // 1000 - 2) + b"\r\n", b"")]
@@ -348,6 +383,21 @@ def _c22_structural(s, I):
                     s.violation("escape/raises-malformed", s.construct(QD + n, r), f"malformed input raises {e.func.id} instead of _MalformedChunkedDataError (HTTPChannel only converts that one to a 400)")
                 else:
                     raise Abstain("raise of an unrecognised form: " + src(r)[:60])
+        # absorbing rejection: nothing is consumed (buffer deletion, state change) on a path that goes on to reject
+        if state in PARSING:
+            consuming = [c for c in g.ids(lambda x: x.kind == "stmt") if (isinstance(g.node(c).ast, ast.Delete) and "self._buffer" in src(g.node(c).ast)) or
+                         call_in(g.node(c).ast, "self._buffer.clear", "self._buffer.pop") or
+                         (isinstance(g.node(c).ast, ast.Assign) and any(self_attr(t, "state") for t in assigned_targets(g.node(c).ast)))]
+            for r in g.ids(lambda x: x.kind == "stmt" and isinstance(x.ast, ast.Raise) and x.ast.exc is not None):
+                if not builds_bad(f, g.node(r).ast.exc):
+                    continue
+                w = g.path(consuming, [r], edge_ok=no_exc, strict=True) if consuming else None
+                if w is None:
+                    s.ok("absorbing/no-consumption-before-reject", f"{QD}{n} | {src(g.node(r).ast)[:70]}", "nothing consumed on the way to this rejection")
+                    continue
+                s.check(w is None, "absorbing/no-consumption-before-reject", f"{QD}{n} | a rejection that follows consumption of input",
+                        "the handler removes input from the buffer / changes state and then rejects: the offending bytes are gone, the next delivery resumes decoding and a later "
+                        "terminator completes the rejected body (request handed to the application after its 400)", witness=g.describe(w))
         # the size is decoded by _hexint only, inside a ValueError -> _MalformedChunkedDataError conversion, and it is what is stored
         hx = cn(g, "_hexint")
         for h in hx:
@@ -400,6 +450,7 @@ def _c22_structural(s, I):
 
 RULE_KINDS = {
     "states/": "structural",                 # state-table closure (every assigned literal has a handler and vice versa); noMoreData over every state of the table
+    "absorbing/no-consumption-before-reject": "structural", "absorbing/rejected-stays-rejected": "bounded",
     "escape/": "structural", "provenance/": "structural", "mustpass/": "structural", "reject/reject-path-cannot-raise-otherwise": "structural", "size/decoded-by-hexint": "structural",
     "size/hexdigits-exact": "finite-exhaustive", "size/hexint": "finite-exhaustive", "bytes/": "finite-exhaustive", "roundtrip/toChunk-fromChunk": "finite-exhaustive", "reject/fromChunk": "finite-exhaustive",
     "size-line/limit": "bounded", "size-line/": "bounded", "roundtrip/decoded-equals-original": "bounded", "dataloss/": "bounded", "callout/": "bounded", "finished/": "bounded",
